@@ -385,9 +385,9 @@ CHECKS = {"method": chk_method, "perm": chk_perm, "distribution": chk_distributi
 
 
 def plan(tier, seed):
-    nmax = 6 if tier == "quick" else 7
+    nmax = 6 if tier == "quick" else 8
     specs = [{"name": f"perms-{n}-{i}", "kind": "perms", "n": n, "part": i, "parts": parts}
-             for n in range(nmax + 1) for parts in [1 if n < 5 else (2 if n == 5 else (14 if n == 6 else 48))] for i in range(parts)]
+             for n in range(nmax + 1) for parts in [1 if n < 5 else (2 if n == 5 else (14 if n == 6 else (48 if n == 7 else 256)))] for i in range(parts)]
     specs += [{"name": f"tools-{i}", "kind": "tools", "part": i, "classes": 30 if tier == "quick" else 120, "bijs": 200 if tier == "quick" else 1200} for i in range(8)]
     specs += [{"name": f"rand-{i}", "kind": "rand", "count": (800 if tier == "quick" else 20000) // 4} for i in range(4)]
     return specs
